@@ -36,7 +36,7 @@ def check(ctx):
         "feasible/infeasible systems (margins down to 2^-10); implementation vs model compared exactly inside Coq (LP answers "
         "replayed); answers re-decided by exact rational evaluation / exact LP with certificates. non-trivial = the point lies "
         "within 1 of some boundary, or a variable is missing, or the system is infeasible/thin; distinct by canonical input")
-    proved = ctx.prove("props/C11.v", ["proofs/EvalFacts.v", "proofs/PolyFacts.v", "proofs/TermListGenEval.v", "proofs/PolyGenEmpty.v"])
+    proved = ctx.prove("props/C11.v", ["proofs/EvalFacts.v", "proofs/PolyFacts.v", "proofs/TermListGenEval.v", "proofs/TermListGenContains.v", "proofs/PolyGenEmpty.v"])
     ctx.build(["model/Corr.vo", "base/Farkas.vo"])
     rng = random.Random(ctx.seed + 11)
     n = (150 if ctx.quick else 20000) * (1 if proved else 3)
